@@ -343,6 +343,21 @@ func (ex *Exec) indexAddr(st *State, x Value, idx *Term, it types.Type, xt types
 		v = st.concPtr(v)
 		n := xt.Underlying().(*types.Pointer).Elem().Underlying().(*types.Array).Len()
 		st.need(c.Ult(idx, ex.i64(n)), "index out of range")
+		if v.RT != nil {
+			// (*[N]T)(unsafe.Pointer(&bytes[k]))[i]: element i starts at byte k + i*sizeof(T)
+			at, ok := v.RT.Underlying().(*types.Array)
+			if !ok || len(v.Path) == 0 {
+				unsupported("indexing a reinterpreted pointer of type %s", v.RT)
+			}
+			w, _, isInt := intInfo(at.Elem())
+			if !isInt {
+				unsupported("reinterpreted array of %s", at.Elem())
+			}
+			i := int(st.constInt(idx, "index into reinterpreted array"))
+			np := append([]int(nil), v.Path...)
+			np[len(np)-1] += i * (w / 8)
+			return Ptr{Obj: v.Obj, Path: np, RT: at.Elem()}
+		}
 		if idx.IsConst() {
 			return Ptr{Obj: v.Obj, Path: appendPath(v.Path, int(idx.V))}
 		}
